@@ -42,7 +42,7 @@ type c13Op struct {
 }
 
 type c13Input struct {
-	Kind      string           `json:"kind"` // hist | doc | trace | inject
+	Kind      string           `json:"kind"` // hist | doc | conc | trace | inject
 	Cache     []byte           `json:"cache,omitempty"`
 	ReadFail  bool             `json:"read_fail,omitempty"`
 	InitWFail bool             `json:"init_write_fail,omitempty"`
@@ -54,6 +54,7 @@ type c13Input struct {
 	Restarts  bool             `json:"restarts,omitempty"` // restart + FileClient after every cache change
 	File      bool             `json:"file,omitempty"`     // the cache is a real setec.FileCache (recorded by a wrapper)
 	Ops       []c13Op          `json:"ops"`
+	Conc      []c13Op          `json:"conc,omitempty"` // kind conc: calls made CONCURRENTLY after ops; the first one's Cache.Write is held
 	Note      string           `json:"note,omitempty"`
 	// trace / inject
 	Syscall string `json:"syscall,omitempty"`
@@ -135,9 +136,33 @@ type c13Cache struct {
 	backing   setec.Cache // if set: a real setec.FileCache holding the content
 	path      string
 	badMode   string // set when the file's permissions are not 0600 after a write
+	// a gate: the next Write announces itself on entered and then waits for release (a slow write)
+	gateArmed bool
+	entered   chan struct{}
+	release   chan struct{}
 }
 
+func (c *c13Cache) armGate() (entered, release chan struct{}) {
+	c.mu.Lock()
+	defer c.mu.Unlock()
+	c.gateArmed, c.entered, c.release = true, make(chan struct{}), make(chan struct{})
+	return c.entered, c.release
+}
+
+// Write records the payloads in the order in which the writes COMPLETE (that is the order in
+// which they take effect on the cache content).
 func (c *c13Cache) Write(d []byte) error {
+	c.mu.Lock()
+	var entered, release chan struct{}
+	if c.gateArmed {
+		c.gateArmed = false
+		entered, release = c.entered, c.release
+	}
+	c.mu.Unlock()
+	if entered != nil {
+		close(entered)
+		<-release
+	}
 	c.mu.Lock()
 	defer c.mu.Unlock()
 	c.writes = append(c.writes, bytes.Clone(d))
@@ -251,6 +276,19 @@ type c13Case struct {
 	ConsWOK  bool
 	Cons     c13SObs
 	Steps    []c13Step
+	Conc     *c13ConcObs
+}
+
+// what a block of concurrent calls left behind
+type c13ConcObs struct {
+	Now     int64
+	Evs     []string // coq terms of the events (order of the input; the first one's write was held)
+	Writes  []*c13J  // payloads in order of completion
+	RS      *c13Restart
+	FC      *c13FC
+	Served  []c13Served
+	Held    bool // the first call's write did reach the gate
+	Overran bool // another call finished while the first write was still held
 }
 
 func c13Z(z int64) string {
@@ -321,9 +359,22 @@ func (c *c13Case) Coq() string {
 	for i, s := range c.Steps {
 		steps[i] = fmt.Sprintf("(%s,%s,%s)", s.Ev, coqBool(s.WOK), s.Obs.Coq())
 	}
-	return fmt.Sprintf("CHist %s %s %s %s %s %s %s %s %s %s %s %s %s %s",
+	hist := fmt.Sprintf("CHist %s %s %s %s %s %s %s %s %s %s %s %s %s %s",
 		c.tbl.Coq(), coqBool(c.RFail), cin, c13Names(c.Names), coqBool(c.Allow), c13Z(c.AgeNs), coqList(ia), c13Z(c.Now0),
 		c13Names(c.Probe), coqBool(c.ConsOK), c13Names(c.ConsReqs), coqBool(c.ConsWOK), c.Cons.Coq(), coqList(steps))
+	if c.Conc == nil {
+		return hist
+	}
+	ws := make([]string, len(c.Conc.Writes))
+	for i, w := range c.Conc.Writes {
+		ws[i] = w.Coq()
+	}
+	sv := make([]string, len(c.Conc.Served))
+	for i, x := range c.Conc.Served {
+		sv[i] = "(" + coqBytes([]byte(x.Name)) + "," + coqOpt(coqBytes(x.Val), x.Has) + ")"
+	}
+	return fmt.Sprintf("CConc (%s) %s %s %s %s %s %s", hist, c13Z(c.Conc.Now), coqList(c.Conc.Evs), coqList(ws),
+		c.Conc.RS.Coq(), c.Conc.FC.Coq(), coqList(sv))
 }
 
 // ---------------------------------------------------------------- running one history
@@ -657,8 +708,156 @@ func c13RunHist(in c13Input, workdir string) (*c13Case, string) {
 			break
 		}
 	}
+	if in.Kind == "conc" && r.panicky == "" {
+		r.runConc(c)
+	}
 	if r.panicky == "" && r.cache.badMode != "" {
 		r.panicky = r.cache.badMode
 	}
 	return c, r.panicky
+}
+
+// runConc makes the calls of in.Conc concurrently.  The Cache.Write of the first call is held on
+// a gate (a slow write); once it has been entered the other calls are started and given every
+// chance to finish (bounded wait: in the unchanged code they block on the store's lock until the
+// held write returns); then the gate is opened.  At quiescence: the payloads in order of
+// completion, a restart + file client from the final content, and what the store serves.
+func (r *c13Run) runConc(c *c13Case) {
+	in := r.in
+	obs := &c13ConcObs{Now: r.now}
+	c.Conc = obs
+	r.cli.take()
+	r.cache.take()
+	r.cache.mu.Lock()
+	r.cache.failWrite = false
+	r.cache.mu.Unlock()
+	for _, op := range in.Conc {
+		if op.Op == "poll" {
+			r.cli.mu.Lock()
+			r.cli.pollFail, r.cli.sameVer = op.PollFail, op.SameVer
+			r.cli.mu.Unlock()
+		}
+	}
+	entered, release := r.cache.armGate()
+	var mu sync.Mutex
+	run := func(op c13Op, done chan struct{}) {
+		go func() {
+			defer close(done)
+			defer func() {
+				if p := recover(); p != nil {
+					mu.Lock()
+					r.panicky = fmt.Sprintf("concurrent %s %q panicked: %v", op.Op, op.Name, p)
+					mu.Unlock()
+				}
+			}()
+			switch op.Op {
+			case "lookup":
+				r.st.LookupSecret(context.Background(), op.Name)
+			case "poll":
+				r.st.Refresh(context.Background())
+			case "close":
+				r.st.Close()
+			default:
+				fatal("C13: op %q cannot be run concurrently", op.Op)
+			}
+		}()
+	}
+	dones := make([]chan struct{}, len(in.Conc))
+	for i := range dones {
+		dones[i] = make(chan struct{})
+	}
+	run(in.Conc[0], dones[0])
+	select {
+	case <-entered:
+		obs.Held = true
+	case <-dones[0]: // the call made no cache write
+	case <-time.After(2 * time.Second):
+	}
+	for i := 1; i < len(in.Conc); i++ {
+		run(in.Conc[i], dones[i])
+	}
+	// every chance to finish while the first write is still in progress
+	deadline := time.After(40 * time.Millisecond)
+	for i := 1; i < len(in.Conc) && obs.Held; i++ {
+		select {
+		case <-dones[i]:
+			obs.Overran = true
+		case <-deadline:
+			i = len(in.Conc)
+		}
+	}
+	close(release)
+	watchdog := time.After(10 * time.Second)
+	for i := range dones {
+		select {
+		case <-dones[i]:
+		case <-watchdog:
+			mu.Lock()
+			r.panicky = fmt.Sprintf("concurrent %s %q did not return within 10s", in.Conc[i].Op, in.Conc[i].Name)
+			mu.Unlock()
+			return
+		}
+	}
+	// the events with the service's answers, from the request log
+	reqs := r.cli.take()
+	for _, op := range in.Conc {
+		switch op.Op {
+		case "lookup":
+			ans := "None"
+			for _, q := range reqs {
+				if q.Get && q.Name == op.Name && q.Ans == "value" {
+					ans = c13OptVV(true, q.Ver, q.Val)
+				}
+			}
+			obs.Evs = append(obs.Evs, fmt.Sprintf("(ELookup %s %s %s)", coqBytes([]byte(op.Name)), ans, c13Z(r.now)))
+		case "poll":
+			var polled []c13Req
+			for _, q := range reqs {
+				if !q.Get {
+					polled = append(polled, q)
+				}
+			}
+			sort.Slice(polled, func(a, b int) bool { return polled[a].Name < polled[b].Name })
+			var ans []string
+			for _, q := range polled {
+				n := coqBytes([]byte(q.Name))
+				switch q.Ans {
+				case "value":
+					ans = append(ans, fmt.Sprintf("(%s,RValue %d %s)", n, q.Ver, coqBytes(q.Val)))
+				case "notchanged":
+					ans = append(ans, fmt.Sprintf("(%s,RNotChanged)", n))
+				default:
+					ans = append(ans, fmt.Sprintf("(%s,RErr)", n))
+				}
+			}
+			obs.Evs = append(obs.Evs, fmt.Sprintf("(EPoll %s %s)", c13Z(r.now*1_000_000_000), coqList(ans)))
+		case "close":
+			obs.Evs = append(obs.Evs, "EClose")
+		}
+	}
+	for _, w := range r.cache.take() {
+		if j, ok := c13Parse(w); ok {
+			r.tbl.addTree(j)
+			obs.Writes = append(obs.Writes, j)
+		} else {
+			obs.Writes = append(obs.Writes, c13Str([]byte("unparsable payload")))
+		}
+	}
+	var so c13SObs
+	r.restart(&so)
+	obs.RS, obs.FC = so.RS, so.FC
+	for _, n := range in.Probe {
+		func() {
+			defer func() {
+				if p := recover(); p != nil {
+					r.panicky = fmt.Sprintf("reading %q panicked: %v", n, p)
+				}
+			}()
+			if h := r.st.Secret(n); h != nil {
+				obs.Served = append(obs.Served, c13Served{Name: n, Has: true, Val: bytes.Clone(h.Get())})
+			} else {
+				obs.Served = append(obs.Served, c13Served{Name: n})
+			}
+		}()
+	}
 }
